@@ -205,7 +205,8 @@ func Complits(fn *ssa.Function, typ string) []*ssa.Alloc {
 	var out []*ssa.Alloc
 	for _, b := range fn.Blocks {
 		for _, in := range b.Instrs {
-			if a, ok := in.(*ssa.Alloc); ok && a.Comment == "complit" {
+			// a composite literal, or a local of the type that is filled field by field
+			if a, ok := in.(*ssa.Alloc); ok {
 				if p, ok := a.Type().Underlying().(*types.Pointer); ok && typeKey(p.Elem()) == typ {
 					out = append(out, a)
 				}
